@@ -82,6 +82,48 @@ def moment(family, params, k):
     raise Unsupported(f"no algebraic reference moments for {family}")
 
 
+PHI0 = "@phi0"   # the constant 1/sqrt(2*pi) (density of the standard normal at 0), kept as a bounded symbol
+
+
+def trunc_moment(family, params, k, lo, hi):
+    """E[X^k 1(lo < X < hi)] for rational (or absent) bounds -- the families/thresholds with an algebraic value:
+    Uniform with constant bounds (any thresholds), Normal and Laplace cut at their location"""
+    k = int(k)
+    if lo is None and hi is None:
+        return moment(family, params, k)
+    if family == "Uniform":
+        if not (params[0].is_const() and params[1].is_const()):
+            raise Unsupported("threshold on a Uniform draw with symbolic bounds")
+        a, b = params[0].cval(), params[1].cval()
+        l = a if lo is None else max(a, lo)
+        h = b if hi is None else min(b, hi)
+        if l >= h:
+            return QPoly()
+        return QPoly.const((h ** (k + 1) - l ** (k + 1)) / ((k + 1) * (b - a)))
+    if family in ("Normal", "Laplace"):
+        mu = params[0]
+        if not mu.is_const() or (lo is not None and hi is not None) or (lo if lo is not None else hi) != mu.cval():
+            raise Unsupported(f"threshold on a {family} draw away from its location")
+        sign = 1 if hi is None else -1      # upper half (x > mu) or lower half (x < mu)
+        if family == "Normal":
+            from .qpoly import sqrt
+            sc = sqrt(params[1])
+            half = []
+            for j in range(k + 1):      # E[Z^j 1(Z > 0)]
+                dfact = 1
+                for t in range(j - 1, 0, -2):
+                    dfact *= t
+                half.append(QPoly.const(Fraction(dfact, 2)) if j % 2 == 0 else QPoly.var(PHI0) * dfact)
+        else:
+            sc = params[1]
+            half = [QPoly.const(Fraction(factorial(j), 2)) for j in range(k + 1)]
+        r = QPoly()
+        for j in range(k + 1):
+            r = r + comb(k, j) * mu ** (k - j) * sc ** j * half[j] * (sign ** j)
+        return r
+    raise Unsupported(f"threshold on a {family} draw")
+
+
 def support(family, params):
     """reference support as ('set', [values]) or ('interval', lo|None, hi|None) (closed)"""
     if family in DISCRETE:
